@@ -121,7 +121,7 @@ Proof.
   unfold x86c_size_max in H. split; [apply Z.div_pos; lia | apply Z.div_lt_upper_bound; lia].
 Qed.
 
-(* with an index type the validator admits, the VEX/VSIB path reads mem_info_table, segment_prefix_table,
+(* with an index type the validator lets through, the VEX/VSIB path reads mem_info_table, segment_prefix_table,
    ll_by_reg_type_table and ll_by_size_div_16_table in range — for every base type, segment, size field, id, offset *)
 Theorem vsib_encode_never_stuck : forall x64 v,
   0 <= m_btype (v_mem v) <= x86c_mem_base_type_max -> 0 <= m_itype (v_mem v) <= x86c_mem_index_type_max ->
@@ -163,7 +163,7 @@ Proof.
 Qed.
 
 (* ---------------------------------------------------------------- the validator hypothesis is discharged through C13's model:
-   validate = kOk  ==>  the index type of the memory operand is admitted  ==>  the ll_by_reg_type_table read is in range *)
+   validate = kOk  ==>  the index type of the memory operand is allowed  ==>  the ll_by_reg_type_table read is in range *)
 From Verif Require Import X86Validate.ValidateModel X86Validate.ValidateProofs.
 From VerifGen Require Import X86Sigs.
 
@@ -217,4 +217,235 @@ Proof.
   destruct (validate_vgather x64 inst_id v =? 0) eqn:V; [| discriminate].
   apply vsib_encode_never_stuck; try assumption.
   apply Z.eqb_eq in V. eapply validated_index_allowed; [lia | exact V].
+Qed.
+
+(* ---------------------------------------------------------------- push / pop of a segment register *)
+Lemma sreg_opcode_mm_in_range : forallb (fun opc => hit x86_opcode_mm_table (Z.land (Z.shiftr opc x86c_mm_shift) x86c_mm_index_max))
+                                  (x86_opcode_push_sreg_table ++ x86_opcode_pop_sreg_table) = true.
+Proof. vm_compute. reflexivity. Qed.
+
+(* for EVERY register id (also ids far beyond the six segment registers) the two table reads of the path are in range *)
+Theorem pushpop_encode_never_stuck : forall is_pop id, 0 <= id -> x86_pushpop_sreg_encode is_pop id <> MStuck.
+Proof.
+  intros is_pop id H0. unfold x86_pushpop_sreg_encode.
+  destruct ((x86c_sreg_id_count <=? id) || (is_pop && (id =? kSegCs))) eqn:G; [discriminate |].
+  apply orb_false_elim in G. destruct G as [G _]. apply Z.leb_gt in G.
+  assert (L : exists opc, lookup (if is_pop then x86_opcode_pop_sreg_table else x86_opcode_push_sreg_table) id = Some opc /\
+                          In opc (x86_opcode_push_sreg_table ++ x86_opcode_pop_sreg_table)).
+  { destruct is_pop.
+    - destruct (pop_sreg_lookup id (conj H0 G)) as [v E]. exists v. split; [exact E |]. apply in_or_app. right.
+      unfold lookup in E. clear -E. revert id E. induction x86_opcode_pop_sreg_table as [| x t IH]; intros id E; cbn [nthZ] in E; [discriminate |].
+      destruct (id =? 0); [inversion E; left; reflexivity |]. destruct (id <? 0); [discriminate |]. right. eapply IH. exact E.
+    - destruct (push_sreg_lookup id (conj H0 G)) as [v E]. exists v. split; [exact E |]. apply in_or_app. left.
+      unfold lookup in E. clear -E. revert id E. induction x86_opcode_push_sreg_table as [| x t IH]; intros id E; cbn [nthZ] in E; [discriminate |].
+      destruct (id =? 0); [inversion E; left; reflexivity |]. destruct (id <? 0); [discriminate |]. right. eapply IH. exact E. }
+  destruct L as [opc [E I]]. rewrite E. cbn [bind_l].
+  pose proof sreg_opcode_mm_in_range as R. rewrite forallb_forall in R. specialize (R opc I).
+  apply hit_some in R. destruct R as [v Ev]. rewrite Ev. cbn [bind_l]. discriminate.
+Qed.
+
+Theorem pushpop_never_stuck : forall x64 is_pop inst_id id, 0 <= id -> x86_pushpop_sreg x64 is_pop inst_id id <> MStuck.
+Proof.
+  intros. unfold x86_pushpop_sreg. destruct (validate_pushpop_sreg x64 inst_id id =? 0); [apply pushpop_encode_never_stuck; assumption | discriminate].
+Qed.
+
+(* ---------------------------------------------------------------- a64 load / store addressing *)
+Lemma a64_ldst_rows_in_range :
+  forallb (fun id => match a64_ldst_row_at id with RStuck => false | _ => true end) (upto (a64c_inst_id_count - 1)) = true.
+Proof. vm_compute. reflexivity. Qed.
+
+Lemma a64_shift_op_map_in_range : forallb (hit a64_shift_op_to_ld_st_opt_map) (upto a64c_mem_shift_op_max) = true.
+Proof. vm_compute. reflexivity. Qed.
+
+(* for EVERY instruction id (also ids beyond the table) every instruction-table read of the load / store path is in
+   range: _inst_info_table[id], baseLdSt[..], _inst_info_table[u_alt_inst_id], baseRM_SImm9[..] *)
+Theorem a64_ldst_row_never_stuck : forall inst_id, 0 <= inst_id -> a64_ldst_row inst_id <> RStuck.
+Proof.
+  intros id H0. unfold a64_ldst_row.
+  assert (R : 0 <= a64_norm_id id <= a64c_inst_id_count - 1).
+  { unfold a64_norm_id. destruct (a64c_inst_id_count <=? id) eqn:E; [vm_compute; split; discriminate |]. apply Z.leb_gt in E. lia. }
+  pose proof a64_ldst_rows_in_range as A. rewrite forallb_forall in A. specialize (A _ (in_upto _ _ R)).
+  destruct (a64_ldst_row_at (a64_norm_id id)); [discriminate | discriminate | discriminate A].
+Qed.
+
+Ltac a64_split := repeat match goal with
+  | |- context [if ?c then _ else _] => destruct c
+  end; try discriminate.
+
+Lemma a64_emit_mem_base_not_stuck : forall m, a64_emit_mem_base m <> MStuck.
+Proof. intros m. unfold a64_emit_mem_base. a64_split. Qed.
+
+Lemma a64_ldur_not_stuck : forall r m, a64_ldur_encode r m <> MStuck.
+Proof. intros r m. unfold a64_ldur_encode, a64_emit_mem_base. a64_split. Qed.
+
+(* the whole path: whatever the operand fields hold (register types and ids, shift, offset mode, offset), no table is read
+   out of bounds; the only hypothesis is the width of the shift-operation field *)
+Theorem a64_ldst_never_stuck : forall inst_id m,
+  0 <= inst_id -> 0 <= a_shiftop m <= a64c_mem_shift_op_max -> a64_ldst inst_id m <> MStuck.
+Proof.
+  intros inst_id m H0 Hs. unfold a64_ldst.
+  pose proof (a64_ldst_row_never_stuck inst_id H0) as R.
+  destruct (a64_ldst_row inst_id) as [r | |]; [| discriminate | contradiction].
+  unfold a64_ldst_encode_row.
+  pose proof a64_shift_op_map_in_range as A. rewrite forallb_forall in A. specialize (A _ (in_upto _ _ Hs)).
+  apply hit_some in A. destruct A as [opt Eo]. rewrite Eo. cbn [bind_l].
+  pose proof (a64_ldur_not_stuck r m) as L. pose proof (a64_emit_mem_base_not_stuck m) as B.
+  unfold a64_emit_mem_base_index.
+  repeat match goal with
+  | |- context [if ?c then _ else _] => destruct c
+  end; try discriminate; assumption.
+Qed.
+
+(* what an ACCEPTED load / store looks like: 4 bytes, no relocation, a 64-bit base register with a 5-bit id, a data
+   register id below 31 or the zero register, and (register-index form) an index id below 31 or the zero register *)
+Theorem a64_ldst_accepted_encodable : forall inst_id m n d,
+  a64_ldst inst_id m = MOk n d ->
+  n = 4 /\ d = 0 /\ a_btype m = a64c_reg_type_gp64 /\ a_bid m <= 31 /\
+  (a_rid m < 31 \/ a_rid m = a64c_zr) /\ (a_itype m <> 0 -> a_iid m <= 30 \/ a_iid m = a64c_id_zr).
+Proof.
+  intros inst_id m n d H. unfold a64_ldst in H.
+  destruct (a64_ldst_row inst_id) as [r | |]; [| discriminate | discriminate].
+  unfold a64_ldst_encode_row in H.
+  destruct (a64_gp_type_ok (l_allowed r) (a_rtype m)); cbn [negb] in H; [| discriminate].
+  destruct (a64_check_gp_id (a_rid m) a64c_zr) eqn:G; cbn [negb] in H; [| discriminate].
+  assert (GR : a_rid m < 31 \/ a_rid m = a64c_zr).
+  { unfold a64_check_gp_id in G. apply orb_true_iff in G. destruct G as [G | G]; [left; apply Z.ltb_lt; exact G | right; apply Z.eqb_eq; exact G]. }
+  destruct (a64_check_mem_base_index_rel m); cbn [negb] in H; [| discriminate].
+  destruct (a64c_reg_type_label_tag <? a_btype m); [| destruct (l_literal r =? 0); discriminate].
+  assert (BASE : forall n d, a64_emit_mem_base m = MOk n d -> n = 4 /\ d = 0 /\ a_btype m = a64c_reg_type_gp64 /\ a_bid m <= 31).
+  { intros n0 d0 E. unfold a64_emit_mem_base in E. destruct (a64_check_mem_base m) eqn:C; [| discriminate].
+    inversion E. unfold a64_check_mem_base in C. apply andb_true_iff in C. destruct C as [C1 C2].
+    apply Z.eqb_eq in C1. apply Z.leb_le in C2. auto. }
+  destruct (a_itype m =? 0) eqn:IT; cbn [negb] in H.
+  - apply Z.eqb_eq in IT.
+    assert (X : a64_emit_mem_base m = MOk n d).
+    { destruct (is_int_n 32 (a_off m)); cbn [negb] in H; [| discriminate].
+      destruct (a_mode m =? 0) eqn:MD; cbn [negb] in H.
+      - match type of H with (if ?c then _ else _) = _ => destruct c end; [exact H |].
+        unfold a64_ldur_encode in H. rewrite MD in H.
+        repeat match type of H with (if ?c then _ else _) = _ => destruct c; try discriminate H end. exact H.
+      - destruct (is_int_n 9 (a_off m)); cbn [negb] in H; [exact H | discriminate]. }
+    destruct (BASE _ _ X) as [? [? [? ?]]]. repeat split; try assumption. intros NZ. contradiction.
+  - destruct (lookup a64_shift_op_to_ld_st_opt_map (a_shiftop m)) as [opt |]; cbn [bind_l] in H; [| discriminate].
+    repeat match type of H with (if ?c then _ else _) = _ => destruct c; try discriminate H end.
+    unfold a64_emit_mem_base_index in H.
+    destruct (a64_check_mem_base m) eqn:C; cbn [negb] in H; [| discriminate].
+    destruct ((30 <? a_iid m) && negb (a_iid m =? a64c_id_zr)) eqn:I; [discriminate |].
+    inversion H. unfold a64_check_mem_base in C. apply andb_true_iff in C. destruct C as [C1 C2].
+    apply Z.eqb_eq in C1. apply Z.leb_le in C2.
+    repeat split; try assumption. intros _.
+    apply andb_false_iff in I. destruct I as [I | I].
+    + left. apply Z.ltb_ge in I. exact I.
+    + right. apply negb_false_iff in I. apply Z.eqb_eq in I. exact I.
+Qed.
+
+(* ---------------------------------------------------------------- x86 shift / rotate by immediate *)
+Lemma x86_shift_rows_in_range :
+  forallb (fun id => forallb (fun k => match x86_shift_row_at id k with ShStuck => false | _ => true end) (upto 15))
+          (upto (x86c_inst_id_count - 1)) = true.
+Proof. vm_compute. reflexivity. Qed.
+
+Lemma land15_range : forall a, 0 <= Z.land a 15 <= 15.
+Proof.
+  intros a. change 15 with (Z.ones 4). rewrite Z.land_ones by lia.
+  pose proof (Z.mod_pos_bound a (2 ^ 4) ltac:(lia)). change (2 ^ 4) with 16 in *. change (Z.ones 4) with 15. lia.
+Qed.
+
+(* for EVERY instruction id and EVERY operand size the five table reads of the path (_inst_info_table, main_opcode_table,
+   opcode_pp_table, opcode_mm_table) are in range *)
+Theorem shift_encode_never_stuck : forall x64 long inst_id f, 0 <= inst_id -> x86_shift_imm_encode x64 long inst_id f <> MStuck.
+Proof.
+  intros x64 long id f H0. unfold x86_shift_imm_encode.
+  assert (R : 0 <= x86_norm_id id <= x86c_inst_id_count - 1).
+  { unfold x86_norm_id. destruct (x86c_inst_id_count <=? id) eqn:E; [vm_compute; split; discriminate |]. apply Z.leb_gt in E. lia. }
+  pose proof x86_shift_rows_in_range as A. rewrite forallb_forall in A. specialize (A _ (in_upto _ _ R)).
+  rewrite forallb_forall in A. specialize (A _ (in_upto _ _ (land15_range (s_size f)))).
+  destruct (x86_shift_row_at (x86_norm_id id) (Z.land (s_size f) 15)); [| discriminate | discriminate A].
+  destruct (x86c_byte_invalid_rex <? _); discriminate.
+Qed.
+
+Theorem shift_never_stuck : forall x64 long inst_id f, 0 <= inst_id -> x86_shift_imm x64 long inst_id f <> MStuck.
+Proof.
+  intros. unfold x86_shift_imm. destruct (validate_shift_imm x64 long inst_id f =? 0); [apply shift_encode_never_stuck; assumption | discriminate].
+Qed.
+
+
+(* ---------------------------------------------------------------- EVEX / VEX + VSIB, two-operand form with a mask *)
+Lemma cdisp8_lookup : forall tt w ll, exists v, lookup x86_cdisp8_shl_table (8 * (tt mod 4) + 4 * (w mod 2) + ll mod 4) = Some v.
+Proof.
+  intros tt w ll. apply lookup_in_len. replace (lenZ x86_cdisp8_shl_table) with 32 by (vm_compute; reflexivity).
+  pose proof (Z.mod_pos_bound tt 4 ltac:(lia)). pose proof (Z.mod_pos_bound w 2 ltac:(lia)). pose proof (Z.mod_pos_bound ll 4 ltac:(lia)). lia.
+Qed.
+
+Lemma vgatherdps_alt_opcode :
+  match lookup x86_inst_alt_idx x86c_vgatherdps_id with
+  | Some ai => match lookup x86_alt_opcode_table ai with Some _ => true | None => false end
+  | None => false
+  end = true.
+Proof. vm_compute. reflexivity. Qed.
+
+(* the EVEX form reads two more tables (alt_opcode_table through the instruction row, cdisp8_shl_table[TT|W|LL]); with an
+   index type the validator lets through no read leaves its table, whatever ids, mask id, sizes and offset are *)
+Theorem vsib2_encode_never_stuck : forall x64 kid v,
+  0 <= m_btype (v_mem v) <= x86c_mem_base_type_max -> 0 <= m_itype (v_mem v) <= x86c_mem_index_type_max ->
+  0 <= m_seg (v_mem v) <= x86c_mem_segment_max -> 0 <= v_dsize v <= x86c_size_max ->
+  index_type_allowed (m_itype (v_mem v)) ->
+  x86_vgather2_encode x64 kid v <> MStuck.
+Proof.
+  intros x64 kid v Hb Hi Hs Hz Ha. unfold x86_vgather2_encode.
+  destruct (mem_info_lookup _ _ Hb Hi) as [rmi E1]. rewrite E1. cbn [bind_l].
+  destruct (segment_lookup _ Hs) as [sp E2]. rewrite E2. cbn [bind_l].
+  destruct (ll_lookup_validated _ Hi Ha) as [lv E3]. rewrite E3. cbn [bind_l].
+  destruct (ll_size_lookup _ Hz) as [ls E4]. rewrite E4. cbn [bind_l].
+  pose proof vgatherdps_alt_opcode as A.
+  destruct (lookup x86_inst_alt_idx x86c_vgatherdps_id) as [ai |]; [| discriminate A]. cbn [bind_l].
+  destruct (lookup x86_alt_opcode_table ai) as [opc0 |]; [| discriminate A]. cbn [bind_l]. clear A.
+  cbv zeta.
+  match goal with |- context [lookup x86_cdisp8_shl_table (8 * (?tt mod 4) + 4 * (?w mod 2) + ?ll mod 4)] =>
+    destruct (cdisp8_lookup tt w ll) as [cd E7]; rewrite E7 end.
+  cbn [bind_l].
+  repeat match goal with
+  | |- (if ?c then _ else _) <> MStuck => destruct c
+  | |- MOk _ _ <> MStuck => discriminate
+  | |- MErr _ <> MStuck => discriminate
+  | |- MUnsupported <> MStuck => discriminate
+  end.
+Qed.
+
+Lemma validated2_index_allowed : forall x64 inst_id etype kid v,
+  0 <= m_itype (v_mem v) -> validate_vgather2 x64 inst_id etype kid v = 0 -> index_type_allowed (m_itype (v_mem v)).
+Proof.
+  intros x64 inst_id etype kid v Hi H. unfold validate_vgather2 in H.
+  assert (V : validate x86_vtables false x64 false
+            {| vi_id := Z.to_N inst_id; vi_options := 0%N; vi_extra_type := Z.to_N etype; vi_extra_id := Z.to_N kid |}
+            [OReg (Z.to_N (v_type v)) (Z.to_N (v_dst v));
+             OMem (Z.to_N (m_size (v_mem v))) (Z.to_N (m_btype (v_mem v))) (Z.to_N (m_bid (v_mem v))) (Z.to_N (m_itype (v_mem v)))
+                  (Z.to_N (m_iid (v_mem v))) (if m_btype (v_mem v) =? 0 then sext 64 (m_off (v_mem v)) else sext 32 (m_off (v_mem v)))
+                  (Z.to_N (m_seg (v_mem v))) 0%N false] = E_Ok).
+  { apply N2Z.inj. exact H. }
+  apply validate_ok_inv in V. destruct V as [_ [iflags [avx [sidx [scnt [st [rest [_ [XL _]]]]]]]]].
+  cbn [xlat_all] in XL.
+  destruct (xlat_operand x86_vtables x64 false avx (OReg _ _)) as [e0 | x0 c0]; [discriminate XL |].
+  destruct (xlat_operand x86_vtables x64 false avx (OMem _ _ _ _ _ _ _ _ _)) as [e1 | x1 c1] eqn:XM; [discriminate XL |].
+  apply xlat_mem_index in XM. unfold index_type_allowed.
+  destruct XM as [Z0 | TB].
+  - left. apply (f_equal Z.of_N) in Z0. rewrite Z2N.id in Z0 by exact Hi. exact Z0.
+  - right. rewrite <- (Z2N.id (m_itype (v_mem v))) by exact Hi.
+    destruct x64; [right | left]; cbn [vt_vd64 vt_vd86 x86_vtables] in TB;
+      [change x86c_allowed_mem_index_regs_x64 with (Z.of_N (vd_index_regs x86_vd1)) | change x86c_allowed_mem_index_regs_x86 with (Z.of_N (vd_index_regs x86_vd0))];
+      rewrite Z.testbit_of_N; exact TB.
+Qed.
+
+(* the EVEX / VEX + VSIB path of a VALIDATED two-operand gather never reads a table out of bounds — for every destination,
+   index and mask id, vector width and offset *)
+Theorem vsib2_path_never_stuck : forall x64 inst_id etype kid v,
+  0 <= m_btype (v_mem v) <= x86c_mem_base_type_max -> 0 <= m_itype (v_mem v) <= x86c_mem_index_type_max ->
+  0 <= m_seg (v_mem v) <= x86c_mem_segment_max -> 0 <= v_dsize v <= x86c_size_max ->
+  x86_vgather2 x64 inst_id etype kid v <> MStuck.
+Proof.
+  intros x64 inst_id etype kid v Hb Hi Hs Hz. unfold x86_vgather2.
+  destruct (negb (inst_id =? x86c_vgatherdps_id)); [discriminate |].
+  destruct (validate_vgather2 x64 inst_id etype kid v =? 0) eqn:V; [| discriminate].
+  apply vsib2_encode_never_stuck; try assumption.
+  apply Z.eqb_eq in V. eapply validated2_index_allowed; [lia | exact V].
 Qed.
